@@ -66,7 +66,7 @@ fn verify_raw(t: &Tuple) -> Result<Option<bool>, String> {
 }
 
 fn oracle(c: &Case, st: &mut Stats) -> Result<(), String> {
-  let server = Server::new(registration_list(&c.mds)).map_err(|e| e.to_string())?;
+  let server = new_server(&c.mds).map_err(|e| e.to_string())?;
   let server2 = Server::new(c.mds.clone()).map_err(|e| e.to_string())?;
   let md = pick_tag(&c.mds, c.md_sel);
   let md2 = pick_tag(&c.mds, c.md_sel2);
@@ -99,7 +99,7 @@ fn oracle(c: &Case, st: &mut Stats) -> Result<(), String> {
     honest.push((blinded.clone(), clone.eval(&blinded, md, true).map_err(|e| e.to_string())?, md));
     let bytes = bincode::serialize(&server.get_private_key()).map_err(|e| format!("export failed: {e}"))?;
     let state: ppoprf::ppoprf::ServerKeyState = bincode::deserialize(&bytes).map_err(|e| format!("key state does not restore: {e}"))?;
-    let mut restored = Server::new(registration_list(&c.mds)).map_err(|e| e.to_string())?;
+    let mut restored = new_server(&c.mds).map_err(|e| e.to_string())?;
     restored.set_private_key(state);
     honest.push((b2.clone(), restored.eval(&b2, md, true).map_err(|e| e.to_string())?, md));
     // the original keeps answering after the copies were made
